@@ -478,5 +478,5 @@ def run(ctx):
 MANIFEST_ENTRY = {
     "technique": "static analysis: abstract evaluation (rules/absint.py) of find_match / filter_matches / Locale::find_locale / find_matchs / convert_vec_str_to_langids_lossy over all request lists x supported lists of a closed universe of 11 tags (language / script / region / variant combinations) and, at the string level, over spellings with numeric regions, digit-bearing variants, `_` separators, mixed case and unparseable leftovers (icu's parser modelled), oracle computed from the property statement; structural MIR / syn rules alongside when the code leaves the evaluator's fragment (then the check fails closed); C12.R5: the supported locales and the default the negotiation is handed are the configured ones (variants in configured order with #[default] first, as_icu_locale = locale!(own name), get_all; the configuration loader's default-first clause) - shared with C13.R0 / C19.R0",
     "level_text": "Finite abstract evaluation: the negotiation code only compares subtags for equality and emptiness, so a universe with every combination of present / absent / equal / different subtags exercises every decision; the outcome of each case is compared with what the statement demands (supported-or-default, earlier request wins, exact beats less specific, list grouped in request order). ICU's tag parsing is not evaluated.",
-    "level_note": "Trusted: stable sort, retain order, icu tag parsing. Not decided: matching of a concrete pair of tags.",
+    "level_note": "Trusted: stable sort, retain order, icu tag parsing. Not decided: matching of a concrete pair of tags. Known and undecided (hunts/C12): `q` weights of Accept-Language are cut off by leptos-use before negotiation; `sl-rozaj-biske` does not fall back to `sl-rozaj`.",
 }
